@@ -996,6 +996,8 @@ def write_recombination_list(
 ) -> int:
     """Return total number of recombinations"""
 
+    # the uniform cost computer returns a one-element list even when there are no positions
+    recombination_costs = recombination_costs[: len(accessible_positions)]
     transmission_vector_trio: Mapping[str, MutableSequence[int]] = defaultdict(list)
     for transmission_vector_value in transmission_vector:
         for trio in trios:
